@@ -50,6 +50,8 @@ func runC09(c *report.Ctx) {
 	checkSignalHandlerOrder(c)
 	checkSupervisorKill(c)
 	checkHandlersSerialised(c)
+	checkExitWaitBounded(c)
+	checkStartWiresConfiguration(c)
 }
 
 func checkShutdownTop(c *report.Ctx) {
